@@ -7,6 +7,7 @@ miss=0
 for d in seeded/S*/; do
   s=$(basename $d)
   if [ $# -gt 0 ]; then ok=0; for pre in "$@"; do [[ $s == $pre* ]] && ok=1; done; [ $ok = 1 ] || continue; fi
+  /venv/bin/python -c "import json,sys;sys.exit(0 if json.load(open('$d/meta.json')).get('retired') else 1)" && { echo "$s retired (see meta.json)"; continue; }
   p=$(/venv/bin/python -c "import json;print(json.load(open('$d/meta.json'))['breaks_property'])")
   # S45 is caught by C15 (its own property's alphabet has no interrupted runs)
   c=$p; [ "$s" = "S45-C06-number-from-chain" ] && c=C15
